@@ -55,6 +55,9 @@ func main() {
 		fmt.Sscanf(os.Getenv("VERIF_C11_RANGE"), "%d-%d", &from, &to)
 		os.Exit(props.C11Child(seed, from, to, *tier == "thorough"))
 	}
+	if id == "c07-idle" {
+		os.Exit(props.C07IdleChild())
+	}
 	if id == "selftest" {
 		os.Exit(props.SelfTest(o))
 	}
